@@ -814,6 +814,38 @@ fn main() {
             println!("{{\"tasks\": {n}, \"timeout_ms\": {to}, \"joins_that_waited_the_whole_timeout\": {slow}, \"joins_without_the_result\": {lost}}}");
             std::process::exit(0);
         }
+        // join_rejoin: the single event loop is kept busy for 150 ms, a task is queued behind that; a first join with a 20 ms
+        // limit times out, a second join with a 2 s limit must be woken when the task finishes (~130 ms later).
+        "join_rejoin" => {
+            init_event_loops();
+            let _busy = open_coroutine_core::net::EventLoops::submit_task(None, |_| { std::thread::sleep(std::time::Duration::from_millis(150)); None }, None, None);
+            std::thread::sleep(std::time::Duration::from_millis(10));
+            let h = open_coroutine_core::net::EventLoops::submit_task(None, |_| Some(77), None, None);
+            let first = h.timeout_join(std::time::Duration::from_millis(20));
+            let t0 = Instant::now();
+            let second = h.timeout_join(std::time::Duration::from_millis(2000));
+            let waited = t0.elapsed().as_millis();
+            println!("{{\"first_timed_out\": {}, \"second_ok\": {}, \"second_waited_ms\": {waited}}}", first.is_err(), matches!(second, Ok(Ok(Some(77)))));
+            std::process::exit(0);
+        }
+        // join_poll: a task has finished; the handle is polled with a zero duration (deadline = now) and with an expired absolute deadline.
+        "join_poll" => {
+            use std::sync::atomic::{AtomicUsize, Ordering};
+            static RAN: AtomicUsize = AtomicUsize::new(0);
+            init_event_loops();
+            let mut res = Vec::new();
+            for k in 0..2 {
+                RAN.store(0, Ordering::SeqCst);
+                let h = open_coroutine_core::net::EventLoops::submit_task(None, move |_| { _ = RAN.fetch_add(1, Ordering::SeqCst); Some(40 + k) }, None, None);
+                let t0 = Instant::now();
+                while RAN.load(Ordering::SeqCst) == 0 && t0.elapsed().as_secs() < 5 { std::thread::yield_now(); }
+                std::thread::sleep(std::time::Duration::from_millis(50));
+                let r = if k == 0 { h.timeout_join(std::time::Duration::ZERO) } else { h.timeout_at_join(1) };
+                res.push(matches!(r, Ok(Ok(Some(v))) if v == 40 + k));
+            }
+            println!("{{\"zero_duration_join_ok\": {}, \"expired_deadline_join_ok\": {}}}", res[0], res[1]);
+            std::process::exit(0);
+        }
         // pool_cancel: (1) a queued task is cancelled before it starts; its waiter then waits with a 300 ms timeout.
         // (2) a task that is suspended (delay) is cancelled; afterwards the pool's running size and the time stop() needs are printed.
         "pool_cancel" => {
@@ -822,7 +854,55 @@ fn main() {
             static RAN: AtomicUsize = AtomicUsize::new(0);
             let mut pool = CoroutinePool::new(String::from("ocv-pool"), 128 * 1024, 0, 1, 0);
             let id = pool.submit_task(Some(String::from("ocv-cancelled")), |_| { _ = RAN.fetch_add(1, Ordering::SeqCst); Some(1) }, None, None).expect("submit");
+            if args.get(2).map(String::as_str) == Some("two") {
+                // two queued tasks (the first one is cancelled when <which> = 0, the second one when 1); after the
+                // worker met both, a LATE waiter asks for the cancelled one and a waiter for the other one
+                static RAN2: AtomicUsize = AtomicUsize::new(0);
+                let id2 = pool.submit_task(Some(String::from("ocv-other")), |_| { _ = RAN2.fetch_add(1, Ordering::SeqCst); Some(2) }, None, None).expect("submit");
+                let (cid, oid) = if num(3) == 0 { (id, id2) } else { (id2, id) };
+                CoroutinePool::try_cancel_task(cid);
+                pool.try_schedule_task().expect("schedule");
+                let t1 = Instant::now();
+                let late = pool.wait_task_result(cid, std::time::Duration::from_millis(300));
+                let late_ms = t1.elapsed().as_millis();
+                let other = pool.wait_task_result(oid, std::time::Duration::from_millis(300));
+                let f = |r: &std::io::Result<Result<Option<usize>, &str>>| match r { Ok(Ok(_)) => "value", Ok(Err(_)) => "error", Err(_) => "timeout" };
+                println!("{{\"which\": {}, \"first_ran\": {}, \"second_ran\": {}, \"late_waiter_of_cancelled\": \"{}\", \"late_waited_ms\": {late_ms}, \"waiter_of_other\": \"{}\"}}",
+                    num(3), RAN.load(Ordering::SeqCst), RAN2.load(Ordering::SeqCst), f(&late), f(&other));
+                std::process::exit(0);
+            }
             CoroutinePool::try_cancel_task(id);
+            if args.get(2).map(String::as_str) == Some("polls") {
+                // a waiter polls (10 ms limit, times out), the pool is stopped, the waiter polls again: it must get the stop error
+                // (an id nobody will ever complete, as in the harness: the waiter can only be answered by the stop)
+                let id = 0x5eed_u64;
+                let first = pool.wait_task_result(id, std::time::Duration::from_millis(10)).map(|_| ()).map_err(|_| ());
+                let stop = pool.stop(std::time::Duration::from_millis(500));
+                let t1 = Instant::now();
+                let second = pool.wait_task_result(id, std::time::Duration::from_millis(300));
+                let second_s = match second { Ok(Ok(_)) => "value", Ok(Err(_)) => "error", Err(_) => "timeout" };
+                println!("{{\"first_timed_out\": {}, \"stop_ok\": {}, \"second_poll\": \"{second_s}\", \"second_waited_ms\": {}}}", first.is_err(), stop.is_ok(), t1.elapsed().as_millis());
+                std::process::exit(0);
+            }
+            if args.get(2).map(String::as_str) == Some("again") {
+                // the worker discards the cancelled task and goes on to a task that suspends itself for 100 ms; meanwhile the
+                // discarded task is cancelled AGAIN: the suspended task must still finish
+                static FINISHED: AtomicUsize = AtomicUsize::new(0);
+                let _id2 = pool.submit_task(Some(String::from("ocv-victim")), |_| {
+                    if let Some(s) = open_coroutine_core::scheduler::SchedulableSuspender::current() {
+                        s.delay(std::time::Duration::from_millis(100));
+                    }
+                    _ = FINISHED.fetch_add(1, Ordering::SeqCst);
+                    Some(2)
+                }, None, None).expect("submit");
+                pool.try_schedule_task().expect("schedule");
+                CoroutinePool::try_cancel_task(id);
+                std::thread::sleep(std::time::Duration::from_millis(150));
+                pool.try_schedule_task().expect("schedule");
+                pool.try_schedule_task().expect("schedule");
+                println!("{{\"cancelled_ran\": {}, \"other_task_finished\": {}}}", RAN.load(Ordering::SeqCst), FINISHED.load(Ordering::SeqCst));
+                std::process::exit(0);
+            }
             if args.get(2).map(String::as_str) == Some("drop") {
                 // what open_coroutine::JoinHandle::try_cancel(self) does next: the handle is dropped, its Drop calls clean_task_result
                 pool.clean_task_result(id);
@@ -880,11 +960,15 @@ fn main() {
             use open_coroutine_core::coroutine::Coroutine;
             type Co = Coroutine<'static, (), (), Option<usize>>;
             let cancel = args[2] == "cancel";
+            let parked = args[2] == "parked"; // cancelled while parked in Syscall(.., Suspend(ts))
             let ts = num(3) as u64;
             let mut a: Co = Coroutine::new(Some(String::from("ocv-a")), move |s: &Suspender<(), ()>, ()| {
                 let co = Co::current().expect("current");
                 co.syscall((), SyscallName::nanosleep, SyscallState::Executing).expect("syscall");
                 if cancel {
+                    s.cancel();
+                } else if parked {
+                    co.syscall((), SyscallName::nanosleep, SyscallState::Suspend(ts)).expect("syscall suspend");
                     s.cancel();
                 } else {
                     co.syscall((), SyscallName::nanosleep, SyscallState::Suspend(ts)).expect("syscall suspend");
